@@ -388,6 +388,8 @@ class VInterp(sym.Interp):
     def ev_Call(self, n):
         d = callee(n) or ""
         last = d.split("::")[-1]
+        if n.get("mac") in ("format", "format_args", "panic", "write", "println") or d.startswith("std::fmt::") or d.startswith("alloc::fmt::") or d.startswith("core::fmt::"):
+            return sym.Opaque("formatted string")
         if "ovl" not in n:
             if d.endswith("RangeInclusive::<Idx>::new"):
                 a, b = self.ev(n["args"][0]), self.ev(n["args"][1])
@@ -661,6 +663,15 @@ class VInterp(sym.Interp):
                 if self.decide(self.apply_closure(sym.ClosureVal(fn, None), [x], n), n):
                     out.append(x)
             return LazyIter(out)
+        if name in ("any", "all"):
+            fn = n["args"][0]
+            for x in items:
+                r = self.decide(self.apply_closure(sym.ClosureVal(fn, None), [x], n), n)
+                if name == "any" and r:
+                    return sp.true
+                if name == "all" and not r:
+                    return sp.false
+            return sp.false if name == "any" else sp.true
         if name == "fold":
             acc = self.ev(n["args"][0])
             for x in items:
